@@ -317,10 +317,22 @@ def analyse_function(fn):
     pre_write = [e for e in ev if e[0] == "write" and e[1] < row_line]
     late_check = [e for e in ev if e[0] in ("check", "index", "eg", "precond") and e[1] > first_write]
     silent = [e for e in ev if e[0] == "return_other"]
+    late_code = []
+    for st in fn.body:
+        if st.lineno <= row_line or isinstance(st, ast.Return):
+            continue
+        if isinstance(st, ast.If) and not st.orelse and all(
+                isinstance(b, ast.Expr) and isinstance(b.value, ast.Call) and (_call_name(b.value) or "").startswith("logger.")
+                for b in st.body) and all(isinstance(x, (ast.Name, ast.Compare, ast.BoolOp, ast.And, ast.Or, ast.NotEq, ast.Eq,
+                                                          ast.Load)) for x in ast.walk(st.test)):
+            continue        # `if a != b and ...: logger.warning(...)` cannot fail
+        if isinstance(st, ast.If) and any(e[1] >= st.lineno and e[1] <= st.end_lineno for e in late_raise + late_write):
+            continue        # already counted as late raise / late write
+        late_code.append("line %d: %s" % (st.lineno, ast.unparse(st).split("\n")[0][:60]))
     return {"fn": fn.name, "table": table, "bulk": bulk, "params": params, "kwargs": has_kwargs,
             "columns": [(c, s) for c, s in cols], "refcols": refcols, "std": std, "eg": eg,
             "late_raise": [e[2] for e in late_raise], "late_write": [e[2] for e in late_write], "pre_write": [e[2] for e in pre_write],
-            "late_check": [e[2] for e in late_check], "silent_return": [e[2] for e in silent],
+            "late_check": [e[2] for e in late_check], "late_code": late_code, "silent_return": [e[2] for e in silent],
             "precond": [e[2] for e in ev if e[0] == "precond"],
             "early_raise": [e[2] for e in ev if e[0] == "raise" and e[1] < first_write]}
 
@@ -360,7 +372,7 @@ def coq_schema(s):
                 (cstr(r["col"]), "ByEt" if r["tsel"] == "by_et" else "Fixed TJ", cbool(r["checked"]))
                 for r in s["refcols"]])
     std = "None" if s["std"] is None else "(Some (%s, %s))" % (cstr(s["std"]["table"]), cbool(s["std"]["checked"]))
-    late = bool(s["late_raise"] or s["late_write"] or s["late_check"])
+    late = bool(s["late_raise"] or s["late_write"] or s["late_check"] or s["late_code"])
     return ("{| s_fn := %s; s_table := %s; s_bulk := %s; s_refcols := %s; s_std := %s; s_eg := %s; s_late := %s;\n"
             "     s_defaults := %s |}" %
             (cstr(s["fn"]), cstr(s["table"]), cbool(s["bulk"]), rc, std, cbool(s["eg"] is not None), cbool(late),
